@@ -13,7 +13,7 @@ CHECKS = {
 CHECKS.update({
  "C01": ("Sweep.tla", "DESIGN.md §3",
    "TLA+ model of combo_runner_core (enumerate/shuffle/submit/complete/collect/unshuffle/place) checked by TLC; every emitted behaviour (permutation, completion order) replayed into combo_runner with scripted executors",
-   "TLC checks ExactlyOnce / OnlyRequestedOnce / Placement / FlatOrder over all grid shapes with N<=6 (every permutation and every submit/complete/collect interleaving for N<=3, N=4 for selected shapes), simulates grids up to 5 arguments x 4 values, and every terminal behaviour is forced onto the real combo_runner (patched random.shuffle, scripted submit/apply_async/multiprocessing.Pool executors) whose call log and nested/flat/split output are compared position by position.",
+   "TLC checks ExactlyOnce / OnlyRequestedOnce / Placement / FlatOrder over all grid shapes with N<=6 (every permutation and every submit/complete/collect interleaving for N<=3, N=4 for selected shapes), simulates grids up to 5 arguments x 4 values, and every terminal behaviour is forced onto the real combo_runner (patched random.shuffle, scripted submit/apply_async/multiprocessing.Pool executors) whose call log and nested/flat/split output are compared position by position; executions with the real seeded shuffle and real thread / multiprocessing / loky pools are recorded and validated against SweepTrace.tla (code -> spec), with a corrupted-trace self-test on every run.",
    "Bounds as listed in the evidence; real pools/RNG are not forced (trace validation only); result tokens are realised as scalar/tuple/array by the harness."),
  "C02": ("Sweep.tla", "DESIGN.md §3",
    "same TLA+ model with case lists: Missing slots, sorted union axes, overlap rejection; behaviours replayed into combo_runner(cases=)/case_runner with every placeholder kind",
@@ -49,13 +49,13 @@ CHECKS.update({
    "TLC checks the Partition invariant for every N<=24 (thorough 48) x every batchsize in 1..N+1 / num_batches in 1..N+2, for grids and case lists, shuffled or not; each emitted partition is compared with the batch files a real sow writes (as sequences of settings with exactly the direct run's keyword arguments) and with the numbers the crop reports before and after reload.", _CROP_NOTE),
  "C08": ("Crop.tla", "DESIGN.md §4",
    "TLA+ model of progress (ProgressIsTruth, OnlyOwnResult, ResowKeepsResults, FailedGrowWritesNothing) checked by TLC; simulated operation histories replayed with all four progress queries and directory listings compared after every call",
-   "TLC checks the progress invariants and frame conditions over all reachable states of crops with 1..4 (8) batches; simulated histories (sow, re-sow, grow i, grow subset, grow_missing, failing function, repair, delete, corrupt, check_bad, reload) are replayed on real crops and num_sown_batches, num_results, missing_results(), is_ready_to_reap(), batches/ and results/ listings and the outcome of each call are compared after every step.", _CROP_NOTE),
+   "TLC checks the progress invariants and frame conditions over all reachable states of crops with 1..4 (8) batches; simulated histories (sow, re-sow, grow i, grow subset, grow_missing, failing function, repair, delete, corrupt, check_bad, reload) are replayed on real crops and num_sown_batches, num_results, missing_results(), is_ready_to_reap(), batches/ and results/ listings and the outcome of each call are compared after every step; progress queries are also interleaved with growers at file-operation level (CropFS.tla), liveness (EventuallyReady under fairness) is model-checked, and the repository's own crop tests are recorded by a pytest plugin and validated as traces against CropTrace.tla.", _CROP_NOTE),
  "C09": ("Crop.tla", "DESIGN.md §4",
    "TLA+ model of partial reaps (placeholder sizing, chain alignment) checked by TLC over all non-empty proper subsets; replayed into reap(allow_incomplete=True) for raw / Dataset / DataFrame crops",
    "TLC checks PartialReapWorks / ReapEqualsDirect / RefusedUntouched for every (N, batching) with and without remainder x every non-empty proper subset of finished batches (B<=5, thorough 7) x clean_up; each is replayed for number/array/tuple/str/bool results, Runner (Dataset) and Sampler (DataFrame) crops, incl. grow-missing-then-full-reap continuations; the pinned placeholder sizing (F4) is reproduced as a TLC counterexample on every run.", _CROP_NOTE),
  "C12": ("Crop.tla", "DESIGN.md §4",
    "TLA+ model of reap outcomes and clean-up (DeleteOnlyAfterDelivery, FailedReapKeepsCrop) checked by TLC over farmer kind x failure cause x clean_up x allow_incomplete with corrected retries; replayed with environment-provoked failures",
-   "TLC checks that the crop directory is deleted only on a successful reap after delivery and is untouched by refused/failed reaps, for none/Runner/Harvester/Sampler crops with failures at result loading, dataset construction, harvester merge and save; histories incl. the corrected retry are replayed on real crops (failures provoked through the environment) and the directory, outcome, values and data file compared after every call; the pinned Sampler clean-up order (F8) is reproduced as a TLC counterexample.", _CROP_NOTE),
+   "TLC checks that the crop directory is deleted only on a successful reap after delivery and is untouched by refused/failed reaps, for none/Runner/Harvester/Sampler crops with failures at result loading, dataset construction, harvester merge and save; histories incl. the corrected retry are replayed on real crops (failures provoked through the environment) and the directory, outcome, values and data file compared after every call; the pinned Sampler clean-up order (F8) is reproduced as a TLC counterexample; the reap events of the repository's own crop tests are validated as traces against CropTrace.tla.", _CROP_NOTE),
 })
 CHECKS.update({
  "C05": ("Harvest.tla", "DESIGN.md §6",
